@@ -90,6 +90,7 @@ def main(argv=None):
     try:
         E.setup()
         progs = ppfamily.cond_programs(args.tier, args.seed) + [p for p in ppfamily.ws_programs() if p.label.startswith('ws/cond')]
+        progs += [p for p in ppfamily.table_programs(args.tier, args.seed) if 'escaped' in p.label]
         if args.only:
             progs = [p for p in progs if args.only in p.label]
         results = proprun.pmap(work, progs)
